@@ -43,6 +43,9 @@ func init() {
 		Variant{ID: "c05-r5-ctor-leak", Prop: "C05", File: "slave_connection.go",
 			Old: "\tif err := s.prepareForReplication(); err != nil {\n\t\ts.close()\n", New: "\tif err := s.prepareForReplication(); err != nil {\n",
 			Expect: "C05-R5 release@newSlaveConnection"},
+		Variant{ID: "c05-r5-ctor-returns-open-conn-with-error", Prop: "C05", File: "slave_connection.go",
+			Old: "\tif err := s.prepareForReplication(); err != nil {\n\t\ts.close()\n\t\treturn nil, err\n\t}\n\n\treturn s, nil\n", New: "\treturn s, s.prepareForReplication()\n",
+			Expect: "C05-R5 release@newSlaveConnection"},
 		Variant{ID: "c05-r6-caller-ctx", Prop: "C05", File: "streamer.go",
 			Old: "\tctx, cancel := context.WithCancel(ctx)\n\tdefer cancel()\n", New: "",
 			Expect: "C05-R6 reader-ctx@Stream"},
@@ -682,8 +685,21 @@ func c05R5(a *A, r *Roles) {
 			n++
 			key := fmt.Sprintf("release@%s[ret#%d]", r.NewConn.Name(), n)
 			if resolve(ret.Results[0]) == alloc {
-				a.hold(rule, key, w.posOf(ret), "hands the connection out")
-				continue
+				// handed out: the caller keeps (and later closes) it only when the error result is nil
+				errNil := len(ret.Results) < 2 || isNilConst(resolve(ret.Results[len(ret.Results)-1]))
+				if !errNil {
+					ev := resolve(ret.Results[len(ret.Results)-1])
+					for _, ce := range dominatingConds(ret.Block()) {
+						if x, nonNilOnTrue, ok := nilTest(ce.Cond); ok && x == ev && ce.Val != nonNilOnTrue {
+							errNil = true
+						}
+					}
+				}
+				if errNil {
+					a.hold(rule, key, w.posOf(ret), "hands the connection out")
+					continue
+				}
+				// returned together with a possibly non-nil error: Stream returns on that error before its deferred close
 			}
 			closed := false
 			for b := ret.Block(); b != nil; b = b.Idom() {
